@@ -18,7 +18,7 @@ import (
 //	st s=<i> init=none|missing|err|ok order=<file idx,…|->          one per stream; order = expected download order (TS view)
 //	trk s= id= rate= kind=                                          decoded fMP4 init tracks
 //	pl s= seq=<k> r=bad|notmedia|media map=none|empty|uri vod=0|1 msn= end=0|1 sc=none|b<0|1>s<0|1> hint=none|x|<idx> segs=<idx|x[@pdt];…|->
-//	f s= i=<idx> kind=parts|ts|bad kinds=<K,…|->                    one per served media file of the stream
+//	f s= i=<idx> kind=parts|ts|bad kinds=<K,…|-> parts=<n>          one per served media file of the stream (n = fragments decoded)
 //	pt s= i= part=<k> id= base= smp=<dur:off:bad:pid;…|->           bad = '+'-joined decoder names that reject the payload, or 0
 //	ti s= i= t=<reader track> pts= dts= pid=   |   ti s= i= de=1    reader call-backs / decode errors in order
 //	hex name=<path> seq=<k> data=<hex>                              served bytes (ignored by the model)
@@ -70,8 +70,9 @@ type rbTI struct {
 }
 
 type rbFile struct {
-	kind  string // parts | ts | bad
-	kinds []string
+	kind   string // parts | ts | bad
+	kinds  []string
+	nparts int // fMP4: number of fragments (`moof`) decoded; 0 = a body without any
 	pts   []rbPT
 	tis   []rbTI
 }
@@ -138,7 +139,7 @@ func (p *rbPl) line(s int) string {
 }
 
 func (f *rbFile) lines(s, i int) []string {
-	o := []string{fmt.Sprintf("f s=%d i=%d kind=%s kinds=%s", s, i, f.kind, rbJoin(f.kinds, ","))}
+	o := []string{fmt.Sprintf("f s=%d i=%d kind=%s kinds=%s parts=%d", s, i, f.kind, rbJoin(f.kinds, ","), f.nparts)}
 	for _, p := range f.pts {
 		var sm []string
 		for _, x := range p.smp {
